@@ -8,7 +8,7 @@
    changes, and the call succeeds whenever the annotation exists. *)
 From Stam Require Import Base.Tac Model.Offset Model.Store Model.StoreObs Spec.StoreSpec
      Proofs.StoreScan Proofs.StoreInv Proofs.StoreDataDef Proofs.StoreRemove Proofs.StoreRemove2
-     Proofs.StoreRemove3 Proofs.StoreData.
+     Proofs.StoreRemove3 Proofs.StoreData Proofs.StoreExact.
 
 Theorem C02_nothing_dangles : forall ops,
   let s := run ops in ann_refs_ok s /\ item_refs_ok s /\ data_ok s.
@@ -42,6 +42,24 @@ Proof.
   intros s d x strict HI Hwf Hex. destruct (remove_data_h_Inv s d x strict HI Hwf Hex) as (A & B & C & D & _).
   cbv zeta. tauto.
 Qed.
+
+(* exactly the dependants: after remove_annotation of a live annotation h in ANY reachable store,
+   a previously live annotation is gone iff it is in the dependency closure the specification
+   computes by scans (deps_ann: h and everything that targets it, transitively) *)
+Theorem C02_remove_annotation_exact : forall ops h,
+  let s := run ops in
+  get_ann s h <> None ->
+  forall x, get_ann s x <> None ->
+    (get_ann (fst (remove_ann (fuel_of s) s h)) x = None <-> In x (deps_ann s h)).
+Proof.
+  intros ops h s Hh x Hx. destruct (reachable_Good ops) as (HI & Hwf & _ & Hrf & _).
+  apply (remove_annotation_is_deps s h HI Hwf Hrf Hh x Hx).
+Qed.
+
+(* the closure of the specification is reachability along "targets an annotation" edges *)
+Theorem C02_closure_meaning : forall s D x, wf_targets s -> x < length (anns s) ->
+  (In x (closure s D) <-> In x D \/ reach s D x).
+Proof. exact closure_is_reach. Qed.
 
 Example C02_nonvacuous :
   let ops := [AddRes 0 6; AddSet 0;
